@@ -293,10 +293,12 @@ theorem step_hk {s : St} (h : SInv s) (cfg : Cfg) (e : Ev) (hH : H (step cfg s e
       · cases r with
         | err e => exact viaHK (HK_andThen (rejoinAfterError_hk cfg { s with jpc := .idle } e) (fun _ => HK_frame rfl rfl ND_nil)) rfl rfl
         | ok m g l n =>
-          simp only []
+          simp only [abandonHb_eq, andThen_fst, andThen_snd]
+          have hpre : ND (if s.hbInFlight = true then [Ob.cancelReq ReqKind.hbR] else []) := by
+            split <;> simp [destabilises]
           split
-          · intro hH; exact ⟨hH, by simp⟩
-          · split <;> (intro hH; exact ⟨hH, by simp [destabilises]⟩)
+          · intro hH; exact ⟨hH, by rw [ND_append]; exact ⟨hpre, ND_nil⟩⟩
+          · split <;> (intro hH; exact ⟨hH, by rw [ND_append]; exact ⟨hpre, by simp [destabilises]⟩⟩)
     exact ⟨this.1, this.2, fun g x => by cases x⟩
   | partsDone r =>
     right
